@@ -173,7 +173,7 @@ func compareWithModel(driver string, hr *historyResult) (int, string, string, er
 
 func compareWithModelOrd(driver string, hr *historyResult, ord int) (int, string, string, error) {
 	var in bytes.Buffer
-	fmt.Fprintf(&in, "gw-begin %d %d 1 %d %s\n", hr.RefThr, hr.RstThr, ord, b2s(hr.Flat))
+	fmt.Fprintf(&in, "gw-begin %d %d 1 %d %s %s\n", hr.RefThr, hr.RstThr, ord, b2s(hr.Flat), b2s(hr.HAuth))
 	var idx []int
 	for i, s := range hr.Steps {
 		if strings.HasPrefix(s.Stim, "#") {
